@@ -32,6 +32,23 @@ def conn_proof_stage(ctx):
     return info, broken
 
 
+def extract_cases(argv, case_nos, timeout=900):
+    """Re-run a harness job once and cut out the text of the given cases (1-based numbers)."""
+    rc, out = vlib.sh(" ".join(argv) + " 2>/dev/null", timeout=timeout)
+    res = {}
+    n = 0
+    cur = None
+    for line in out.split("\n"):
+        if line.startswith("C "):
+            n += 1
+            cur = [line] if n in case_nos else None
+            if cur is not None:
+                res[n] = cur
+        elif cur is not None and line:
+            cur.append(line)
+    return res
+
+
 def run_conn(ctx, proof_only=False):
     cov = {}
     ctx.cov["connection"] = cov
@@ -100,12 +117,18 @@ def run_conn(ctx, proof_only=False):
         msg = line.split("]", 1)[1].strip() if "]" in line else line
         seen_msgs.setdefault(msg, []).append((lbl, cmd, line))
     for msg, lst in list(seen_msgs.items())[:3]:
+        # re-run at most two harness jobs, cut out the candidate executions, keep the shortest
         best = None
-        for lbl, cmd, line in lst[:12]:
-            case_no = int(line.split("case=")[1].split()[0])
-            hist = vlib.extract_case(cmd.split(), driver, case_no)
-            if best is None or len(hist) < len(best[0]):
-                best = (hist, cmd, line)
+        by_cmd = {}
+        for lbl, cmd, line in lst:
+            by_cmd.setdefault(cmd, []).append(line)
+        for cmd, lines in list(by_cmd.items())[:2]:
+            wanted = {int(l.split("case=")[1].split()[0]): l for l in lines[:40]}
+            for case_no, hist in extract_cases(cmd.split(), set(wanted)).items():
+                if best is None or len(hist) < len(best[0]):
+                    best = (hist, cmd, wanted[case_no])
+        if best is None:
+            best = ([], lst[0][1], lst[0][2])
         hist, cmd, line = best
         hdr = hist[0].split() if hist else []
         sched = next((l[2:] for l in hist if l.startswith("S ")), "")
